@@ -41,7 +41,7 @@ def plan(tier):
                 'cross-key and cross-message negatives; freshness of generated keys and IVs; plus Encrypt/Decrypt/MAC/'
                 'Sign/Verify/DeriveKey/wrapped Get round trips through the server; a cell is (function, algorithm, mode, '
                 'padding, outcome)',
-        'min_monitor': {'references_compared': 1000, 'roundtrips': 500, 'negatives_tried': 100, 'fresh_values': 200,
+        'min_monitor': {'wrapped_gets_batched_with_a_use': 50, 'references_compared': 1000, 'roundtrips': 500, 'negatives_tried': 100, 'fresh_values': 200,
                         'server_sign_verify_roundtrips': 20},
         'assumptions': ['"independent use of the same cipher" = cryptography.hazmat Cipher driven by the harness with '
                         'the stated key / IV / mode and hand-written padding',
